@@ -242,6 +242,9 @@ func runApiStream(o Opts, prop, oracle string, mix apiMix) error {
 	if prop == "C06" && s.ReplayWants("net-") {
 		netC06(s, o.Tier)
 	}
+	if prop == "C01" && s.ReplayWants("net-") {
+		netWire(s, r, o.Tier)
+	}
 	return s.Close()
 }
 
@@ -343,8 +346,88 @@ func netC06(s *Sink, tier string) {
 				if bind.Port() != 0 && from.Port() != bind.Port() {
 					s.Fail(js, fmt.Sprintf("request left from port %d, the configured bind port is %d", from.Port(), bind.Port()))
 				}
+				// TCP from a fixed bind port, again at once (the previous connection's local port may still be lingering):
+				// the call may fail, but a request never leaves from any other port than the configured one
+				if path == pathTCP && bind.Port() != 0 {
+					for rep := 0; rep < 3; rep++ {
+						nextIndex++
+						ridx := nextIndex
+						farm.Plan(ridx, Behaviour{HoldOpen: 400 * time.Millisecond}) // a controller slow to close its side
+						farm.ResetLog()
+						u.GetEvent(id, ridx)
+						calls++
+						time.Sleep(5 * time.Millisecond)
+						for _, ev := range farm.Log() {
+							if ap, perr := netip.ParseAddrPort(ev.From); perr == nil && ap.Port() != bind.Port() {
+								s.Fail(js, fmt.Sprintf("repeated TCP call: the request left from port %d, the configured bind port is %d", ap.Port(), bind.Port()))
+							}
+						}
+					}
+				}
 			}
 		}
 	}
 	s.Extra["net_calls"] = calls
+}
+
+// socket-level half of C01: the REAL driver on loopback. Every operation, on each delivery path, with the client in and out
+// of debug mode: the 64 bytes that arrive at the controller are the bytes the same call hands to a recording driver (which
+// the stream above ties to the protocol encoding) - nothing between the encoder and the socket alters them.
+func netWire(s *Sink, r *Rand, tier string) {
+	farm, err := NewFarm()
+	if err != nil {
+		s.Extra["net_stream"] = "skipped: " + err.Error()
+		return
+	}
+	defer farm.Close()
+	restore := discardStdout()
+	defer func() { farmDebug = false; restore() }()
+	rounds := 1
+	if tier == "thorough" {
+		rounds = 12
+	}
+	calls := 0
+	for round := 0; round < rounds; round++ {
+		for w := 0; w < nOps; w++ {
+			for path := 0; path < 3; path++ {
+				if (w+path+round)%3 != 0 && tier != "thorough" {
+					continue // quick: each operation on one path per round
+				}
+				id := uint32(720000000 + 100*path + w)
+				oc := genOp(r, w, id, false)
+				stub := newClient(Cfg{})
+				stub.f.script = Script{Kind: "error"}
+				safeCall(func() string { return oc.Run(stub.u) })
+				if len(stub.f.calls) != 1 {
+					continue // rejected before sending (or not a single-request operation)
+				}
+				want := stub.f.calls[0].Req
+				var udpIDs, tcpIDs []uint32
+				switch path {
+				case pathUDP:
+					udpIDs = []uint32{id}
+				case pathTCP:
+					tcpIDs = []uint32{id}
+				}
+				farmDebug = (w+round)%2 == 1
+				farm.ResetLog()
+				u := farmClient(farm, 0, 120*time.Millisecond, udpIDs, tcpIDs)
+				safeCall(func() string { return oc.Run(u) })
+				calls++
+				time.Sleep(3 * time.Millisecond)
+				log := farm.Log()
+				pn := []string{"broadcast", "udp", "tcp"}[path]
+				js := map[string]any{"op": "net-wire", "path": pn, "operation": oc.Name, "opcoq": oc.Coq, "debug": farmDebug, "want": hexs(want)}
+				if len(log) != 1 {
+					s.Fail(js, fmt.Sprintf("%d requests reached the controller for one %s call over %s", len(log), oc.Name, pn))
+					continue
+				}
+				if hexs(log[0].Req) != hexs(want) {
+					js["got"] = hexs(log[0].Req)
+					s.Fail(js, fmt.Sprintf("the %s request that arrived over %s differs from the bytes the encoder produced for the call", oc.Name, pn))
+				}
+			}
+		}
+	}
+	s.Extra["net_wire_calls"] = calls
 }
